@@ -183,6 +183,9 @@ func linSpec(p *Prog, paramIdx int) *Spec {
 				if q, ok := slots[f]; ok {
 					return []Ev{{Kind: "consume:slot", Note: q}}
 				}
+				if t.StoresIntoPathObject(fr, x) {
+					return nil // a parameter object built on this path: the load of the field resolves to the continuation again
+				}
 				return []Ev{{Kind: "escape", Note: "stored into field " + f.Name()}}
 			}
 			return []Ev{{Kind: "escape", Note: "stored to " + x.Addr.Name()}}
@@ -447,12 +450,25 @@ func ruleReply(c *Ctx) {
 // ---------------------------------------------------------------------------
 // LIN/drain: a pending slot is only cleared after its content was drained.
 
-func ruleDrain(c *Ctx) {
+func ruleDrain(c *Ctx) { ruleDrainOf()(c) }
+
+// ruleDrainOf restricts the drain rule to the named callback slots (all when none is named).
+func ruleDrainOf(only ...string) func(c *Ctx) {
+	return func(c *Ctx) { ruleDrainImpl(c, only) }
+}
+
+func ruleDrainImpl(c *Ctx, only []string) {
 	slots := c.P.slotSet()
 	// queues owned by their worker are covered by FIFO (C03); here: callback slots
 	callbackSlots := map[string]bool{
 		"server.Subscription.accessCallbacks": true,
 		"server.Subscription.readyCallbacks":  true,
+	}
+	if len(only) > 0 {
+		callbackSlots = map[string]bool{}
+		for _, q := range only {
+			callbackSlots[q] = true
+		}
 	}
 	var fields []*types.Var
 	for f, q := range slots {
@@ -613,12 +629,138 @@ func consumedInLoop(lv ssa.Value) bool {
 			if elem == nil || !loops[elem.(ssa.Instruction).Block()] {
 				continue
 			}
-			if elemConsumed(elem) {
+			if elemConsumed(elem) && drainLoopComplete(elem) {
 				return true
 			}
 		}
 	}
 	return false
+}
+
+// drainLoopComplete: the loop that takes elem out of the drained container runs
+// to the end of the container on every path — its only exit is the loop
+// header's "no more elements" edge (no break, no return from the body) — and
+// every iteration reaches a use of the element before it goes round again (no
+// `continue` in front of the consumption). A drain that stops early (`if
+// s.state == stateDisposed { break }`) drops the continuations still waiting.
+func drainLoopComplete(elem ssa.Value) bool {
+	eb := elem.(ssa.Instruction).Block()
+	fn := eb.Parent()
+	reach := func(from *ssa.BasicBlock, fwd bool) map[*ssa.BasicBlock]bool {
+		seen := map[*ssa.BasicBlock]bool{}
+		st := []*ssa.BasicBlock{from}
+		for len(st) > 0 {
+			x := st[len(st)-1]
+			st = st[:len(st)-1]
+			nx := x.Succs
+			if !fwd {
+				nx = x.Preds
+			}
+			for _, y := range nx {
+				if !seen[y] {
+					seen[y] = true
+					st = append(st, y)
+				}
+			}
+		}
+		return seen
+	}
+	fw, bw := reach(eb, true), reach(eb, false)
+	member := map[*ssa.BasicBlock]bool{}
+	for _, b := range fn.Blocks {
+		if fw[b] && bw[b] {
+			member[b] = true
+		}
+	}
+	if !member[eb] {
+		return false
+	}
+	// innermost loop only: when the element is taken in a nested loop the members above are a superset; accept
+	// the smallest cycle through eb — approximated by requiring a unique header (the member entered from outside)
+	var header *ssa.BasicBlock
+	for b := range member {
+		for _, pb := range b.Preds {
+			if !member[pb] {
+				if header != nil && header != b {
+					return false
+				}
+				header = b
+			}
+		}
+	}
+	if header == nil {
+		return false
+	}
+	// 1. the only way out of the loop is the header's exit edge (panics aside)
+	for b := range member {
+		if b == header {
+			continue
+		}
+		for _, sb := range b.Succs {
+			if !member[sb] && !isPanicBlock(sb) {
+				return false
+			}
+		}
+		if len(b.Instrs) > 0 {
+			if _, isRet := b.Instrs[len(b.Instrs)-1].(*ssa.Return); isRet {
+				return false
+			}
+		}
+	}
+	// 2. every way back to the header passes a block that uses the element (or a cell it was spilled to)
+	uses := map[*ssa.BasicBlock]bool{}
+	vals := map[ssa.Value]bool{elem: true}
+	for _, r := range *elem.Referrers() {
+		if s, ok := r.(*ssa.Store); ok && s.Val == elem {
+			if al, ok := s.Addr.(*ssa.Alloc); ok {
+				for _, r2 := range *al.Referrers() {
+					if u, ok := r2.(*ssa.UnOp); ok && u.Op == token.MUL {
+						vals[u] = true
+					}
+				}
+			}
+		}
+	}
+	for v := range vals {
+		for _, r := range *v.Referrers() {
+			switch x := r.(type) {
+			case ssa.CallInstruction:
+				uses[x.Block()] = true
+			case *ssa.FieldAddr:
+				uses[x.Block()] = true
+			}
+		}
+	}
+	for _, pb := range header.Preds {
+		if !member[pb] {
+			continue
+		}
+		// walk back from the back edge to the element's block without passing a use: such a path skips the element
+		seen := map[*ssa.BasicBlock]bool{}
+		var skip func(b *ssa.BasicBlock) bool
+		skip = func(b *ssa.BasicBlock) bool {
+			if uses[b] {
+				return false
+			}
+			if b == eb || b == header {
+				return true
+			}
+			if seen[b] {
+				return false
+			}
+			seen[b] = true
+			for _, q := range b.Preds {
+				if member[q] && skip(q) {
+					return true
+				}
+			}
+			return false
+		}
+		if skip(pb) {
+			return false
+		}
+	}
+	return true
 }
 
 func elemConsumed(elem ssa.Value) bool {
